@@ -26,6 +26,7 @@ ASSUMPTIONS = ["NARROW SLICE: GAE / reward-to-go / n-step recurrences against fl
 TIERS = {"quick": {"runs": 40}, "thorough": {"runs": 1000}}
 REQUIRED = ["other_environments_irrelevant", "post_terminal_windows_faulted", "post_terminal_irrelevant_critic", "post_terminal_irrelevant_encoder"]
 REQUIRED_QUICK = REQUIRED
+CHUNK = 24  # TrainSim plans per fresh worker process
 SHRINK_LISTS = [["env", "script"]]
 PLAN_LIMIT_S = 240
 SHRINK_INTS = []
